@@ -404,6 +404,13 @@ func (e *Exporter) exportJSON(chunks []*Chunk, w io.Writer) error {
 func (e *Exporter) exportCSV(chunks []*Chunk, w io.Writer) error {
 	csvWriter := csv.NewWriter(w)
 	csvWriter.Comma = e.config.CSVDelimiter
+	if csvWriter.Comma == 0 {
+		// Delimiter not set: comma for CSV (the documented default), tab for TSV
+		csvWriter.Comma = ','
+		if e.config.Format == ExportFormatTSV {
+			csvWriter.Comma = '\t'
+		}
+	}
 
 	// Collect all possible columns from all chunks
 	columns := e.collectCSVColumns(chunks)
